@@ -24,6 +24,7 @@ units.UNITS['ClAlu'] = clunits.gen_clalu
 units.UNITS['ClJmp'] = clunits.gen_cljmp
 units.UNITS['ClMem'] = clunits.gen_clmem
 units.UNITS['JitMulDiv'] = clunits.gen_jitmuldiv
+units.UNITS['JitMisc'] = clunits.gen_jitmisc
 units.UNITS['ClMisc'] = clunits.gen_clmisc
 units.UNITS['JitEnc'] = clunits.gen_jitenc
 units.UNITS['JitArms'] = clunits.gen_jitarms
